@@ -78,6 +78,38 @@ def face_planes(V, faces):
     return out
 
 
+def true_centroid(V, faces=None, normal=None):
+    """Centroid of the solid (vertices + outward face cycles) or of the planar polygon,
+    from the defining geometry alone."""
+    V = np.asarray(V, float)
+    m = V.mean(axis=0)
+    W = V - m
+    if faces is not None:
+        vol, acc = 0.0, np.zeros(3)
+        for f in faces:
+            f = [int(i) for i in f]
+            for i in range(1, len(f) - 1):
+                a, b, c = W[f[0]], W[f[i]], W[f[i + 1]]
+                v6 = float(np.dot(a, np.cross(b, c)))
+                vol += v6
+                acc += v6 * (a + b + c) / 4.0
+        if vol == 0:
+            return None
+        return m + acc / vol
+    area2, acc = np.zeros(3), np.zeros(3)
+    n = np.asarray(normal, float)
+    n = n / np.linalg.norm(n)
+    tot = 0.0
+    for i in range(1, len(W) - 1):
+        a, b, c = W[0], W[i], W[i + 1]
+        s2 = float(np.dot(np.cross(b - a, c - a), n))
+        tot += s2
+        acc += s2 * (a + b + c) / 3.0
+    if tot == 0:
+        return None
+    return m + acc / tot
+
+
 def seg_dist(p, a, b):
     ab = b - a
     t = float(np.dot(p - a, ab) / max(float(np.dot(ab, ab)), 1e-300))
@@ -156,6 +188,14 @@ def check_definitions(shape, res, si):
         n = n / np.linalg.norm(n)
         planes = None
     convex = cls.startswith("Convex")
+    # "the centroid" is the centroid of the region, computed here from the defining geometry;
+    # the object's own report is used only when the two agree (and flagged when they do not)
+    ct = true_centroid(V, faces, None if three else n)
+    if ct is not None and np.linalg.norm(ct - c0) > 1e-7 * L:
+        _v(res, si, cls, "centroid", "centred-balls-not-about-the-centroid",
+           "the object reports its centroid at %s, the region's centroid is %s: the centred "
+           "balls cannot be centred at the centroid" % (c0.tolist(), ct.tolist()))
+        return
 
     # ---- minimal centred bounding ball
     for name in ("minimal_centered_bounding_" + sfx,):
